@@ -2,7 +2,7 @@
    Property theorems only (tree level; every view operation of the model is a composition of
    getter / setter / root / children, and the view level is tied by the correspondence).
    summ n m : n is m with some subtrees replaced by RootN (root subtree). *)
-Require Import RM.Base RM.Gindex RM.Tree RM.TreeProofs RM.Types RM.Spec RM.ModelViews RM.ModelCodec RM.ModelMut RM.ModelIters RM.ModelObj RM.PartialProofs RM.PartialViews RM.ModelStore RM.PartialStore RM.ReprProofs RM.ObjProofs RM.PartialReads.
+Require Import RM.Base RM.Gindex RM.Tree RM.TreeProofs RM.Types RM.Spec RM.ModelViews RM.ModelCodec RM.ModelMut RM.ModelIters RM.ModelObj RM.PartialProofs RM.PartialViews RM.ModelStore RM.PartialStore RM.ReprProofs RM.ObjProofs RM.PartialReads RM.PartialErrors.
 
 Theorem C17_root : forall H n m, summ H n m -> root H n = root H m.
 Proof. exact summ_root. Qed.
@@ -171,3 +171,61 @@ Print Assumptions C17_packed_iter.
 Print Assumptions C17_bit_iter.
 Print Assumptions C17_export.
 Print Assumptions C17_export_is_value.
+
+(* ---- the other direction (PartialErrors.v): where the complete tree answers, the partial tree gives the related
+        answer or a navigation / index error ---- *)
+(* how to read `nsim R partial complete` *)
+Theorem C17_two_way_reading : forall A (R : A -> A -> Prop) rp rc,
+  nsim R rp rc ->
+  (forall x, rp = Ok x -> exists y, rc = Ok y /\ R x y) /\
+  (forall y, rc = Ok y -> (exists x, rp = Ok x /\ R x y) \/ rp = Err ENav \/ rp = Err EIndex).
+Proof. intros A R rp rc Hn. split; [exact (proj1 Hn)|intros y Hy; exact (nsim_complete R rp rc y Hn Hy)]. Qed.
+
+(* every view operation and serialisation, partial tree n against complete tree m (sn n m := summ n m /\ novirt m) *)
+Theorem C17_view_ops_two_way : forall H src, Hinj H -> forall t n m, sn H n m ->
+  (forall i, nsim (sn H) (view_get H src t n i) (view_get H src t m i)) /\
+  (forall i x w, sn H x w -> nsim (sn H) (view_set H src t n i x) (view_set H src t m i w)) /\
+  (forall x w, sn H x w -> nsim (sn H) (list_append H src t n x) (list_append H src t m w)) /\
+  nsim (sn H) (list_pop H src t n) (list_pop H src t m) /\
+  (forall i, nsim eq (bits_get H src t n i) (bits_get H src t m i)) /\
+  (forall i b, nsim (sn H) (bits_set H src t n i b) (bits_set H src t m i b)) /\
+  (forall b, nsim (sn H) (bitlist_append H src t n b) (bitlist_append H src t m b)) /\
+  nsim (sn H) (bitlist_pop H src t n) (bitlist_pop H src t m) /\
+  nsim eq (view_len H src t n) (view_len H src t m) /\
+  nsim eq (union_selector H src t n) (union_selector H src t m) /\
+  nsim eq (ser_impl H src t n) (ser_impl H src t m).
+Proof.
+  intros H src Hi t n m Hs.
+  exact (conj (fun i => n_view_get H src t n m i Hs)
+        (conj (fun i x w Hx => n_view_set H src Hi t n m i x w Hs Hx)
+        (conj (fun x w Hx => n_list_append H src Hi t n m x w Hs Hx)
+        (conj (n_list_pop H src Hi t n m Hs)
+        (conj (fun i => n_bits_get H src t n m i Hs)
+        (conj (fun i b => n_bits_set H src Hi t n m i b Hs)
+        (conj (fun b => n_bitlist_append H src Hi t n m b Hs)
+        (conj (n_bitlist_pop H src Hi t n m Hs)
+        (conj (n_view_len H src t n m Hs)
+        (conj (n_union_selector H src t n m Hs)
+              (n_ser H src t n m Hs))))))))))).
+Qed.
+
+(* in plain words for element reads: the complete tree returns y => the partial tree returns a summary of y or fails
+   with a navigation / index error *)
+Theorem C17_view_get_complete : forall H src, Hinj H -> forall t n m i y, summ H n m -> novirt m ->
+  view_get H src t m i = Ok y ->
+  (exists x, view_get H src t n i = Ok x /\ summ H x y) \/ view_get H src t n i = Err ENav \/ view_get H src t n i = Err EIndex.
+Proof.
+  intros H src Hi t n m i y Hs Hnv Hy.
+  destruct (nsim_complete (sn H) _ _ y (n_view_get H src t n m i (conj Hs Hnv)) Hy) as [(x & Hx & Hxy & _)|E]; [left; eauto|right; exact E].
+Qed.
+
+(* store level: a command (hook propagation included) that succeeds on the store of complete trees can fail on the
+   store of partial trees only with a navigation / index error *)
+Theorem C17_store_errors : forall H src, Hinj H -> forall sp sc c e sp' sc', psrel H sp sc ->
+  run_cmd H src sp c = (Err e, sp') -> run_cmd H src sc c = (Ok tt, sc') -> e = ENav \/ e = EIndex.
+Proof. exact run_cmd_naverr. Qed.
+
+Print Assumptions C17_two_way_reading.
+Print Assumptions C17_view_ops_two_way.
+Print Assumptions C17_view_get_complete.
+Print Assumptions C17_store_errors.
